@@ -63,6 +63,7 @@ Do(a) ==
       [] a.op = "disconnect" -> AppDisconnect(a.s)
       [] a.op = "save"    -> AppSaveSession(a.s, a.tok)
       [] a.op = "get"     -> AppGetSession(a.s)
+      [] a.op = "anyreq"  -> AnyReq(a.status)
       [] a.op = "tick"    -> TickTo(a.t)
       [] OTHER            -> FALSE
 
